@@ -168,10 +168,8 @@ func c05Check(c c05Case) vfResult {
 			r.Err = fmt.Errorf("limit 0 but only %d of %d bytes consumed", rd.handed, len(x))
 			return r
 		}
-		if c.Limit > 0 && int(c.Limit) <= len(x) && rd.handed != int(c.Limit) {
-			r.Err = fmt.Errorf("limit %d <= len %d but %d bytes consumed", c.Limit, len(x), rd.handed)
-			return r
-		}
+		// (under a non-zero limit the statement gives an upper bound only - checked above; how few
+		// bytes an implementation needs is its own business as long as the answer is Detect's)
 	case needAll || c.FaultAt < int(c.Limit):
 		// failure before the header is complete
 		r.Labels = append(r.Labels, "fault-before-complete")
